@@ -15,6 +15,21 @@ def match_known(known, prop, sig):
     return None
 
 
+def _inputs(jobs):
+    "measured: the skeletons / patterns / grammars / types and hash seeds this run actually used"
+    out = {}
+    for j in jobs:
+        for k in ("shape", "f", "g", "fst", "pattern", "grammar", "acceptor", "type", "shapes", "kind"):
+            v = j["params"].get(k)
+            if v is not None:
+                out.setdefault(k, set()).add(json.dumps(v, ensure_ascii=False) if not isinstance(v, str) else v)
+        out.setdefault("hash_seeds", set()).add(str(j.get("hashseed", 0)))
+        for k in ("L", "n"):
+            if k in j["params"]:
+                out.setdefault(k, set()).add(str(j["params"][k]))
+    return {k: sorted(v) for k, v in out.items()}
+
+
 def finish(prop, tier, seed, jobs, by_id, info, wall, known, write=True):
     tot = dict(obligations=0, discharged=0, inconclusive=0, oob=0, paths=0, cuts=0, nontrivial=0,
                bool_checks=0, z3_queries=0, z3_seconds=0.0, shadow_answers=0, vacuity_sat=0,
@@ -131,6 +146,7 @@ def finish(prop, tier, seed, jobs, by_id, info, wall, known, write=True):
         star_argument_check=dict(paths_with_star=tot["star_obligations"], implied_by_pivots=tot["star_discharged"],
                                  note="paths on which z3 showed (oracle pivots > 0) => (every star argument the implementation formed < 1); elsewhere the identities are established wherever the implementation's own star arguments are < 1"),
         jobs=len(jobs), jobs_resource_limited=resource,
+        inputs_run=_inputs(jobs),
         per_case=per_case,
         functions_entered=sorted(entered),
         bounds=info.get("bounds", {}).get(tier, info.get("bounds", {})),
